@@ -444,11 +444,11 @@ class SchemaGroup(SchemaSet):
                 )
 
             for st, sv in tag_fields.items():
-                if isinstance(sv, SchemaField):
-                    if sv.tag not in fmsg and self.required[sv]:
-                        raise FIXMessageError(
-                            f"fixmessage={groups} missing required field {repr(sv)}"
-                        )
+                # a required field or a required nested group
+                if st not in fmsg and self.required[sv]:
+                    raise FIXMessageError(
+                        f"fixmessage={groups} missing required field {repr(sv)}"
+                    )
 
     def __repr__(self):
         """Repr."""
